@@ -704,7 +704,7 @@ func (p c16) Run(w *mon.Worker, idx int) mon.Result {
 				okq = false
 				break
 			}
-			if in.key == nil || !anyEq(in.key, in.path[len(in.path)-1]) || in.ppath == nil || !ref.IsPrefix(in.ppath, in.path) || len(in.ppath)+1 != len(in.path) {
+			if in.key == nil || !sameStep(in.key, in.path[len(in.path)-1]) || in.ppath == nil || !ref.IsPrefix(in.ppath, in.path) || len(in.ppath)+1 != len(in.path) {
 				okq = false
 				break
 			}
